@@ -494,7 +494,7 @@ func claimText(dev string, v Vec, o *Out) string {
 func runWide(c *core.Ctx, pool *core.Pool, matrix Matrix_) error {
 	var vecs []Vec
 	vecs = append(vecs, wideWitnesses...)
-	per := c.Pick(45, 700)
+	per := c.Pick(45, 280)
 	for _, t := range Fixed {
 		if t.N == 8 {
 			continue
